@@ -16,7 +16,7 @@ PROP = 'C05'
 HASH_SENSITIVE = False
 DAY = datetime.timedelta(days=1)
 WEEKENDS = [[5, 6], [4, 5], [6], []]
-QUERIES = ['is_bday', 'is_holiday', 'adjust', 'add', 'bdays', 'addinv', 'add2', 'drange', 'dt_bump', 'clock']
+QUERIES = ['is_bday', 'is_holiday', 'adjust', 'add', 'bdays', 'addinv', 'add2', 'drange', 'dt_bump', 'clock', 'add_ts']
 MARGIN = 170      # days kept clear at both ends of the calendar's range (|n| <= 40 business days never leaves it)
 
 
@@ -195,6 +195,10 @@ def generate(st):
         q = {'op': 'q', 'on': target, 'kind': kind, 't': _iso(ds[0]), 'tform': g.choice(['datetime', 'datetime', 'datetime', 'timestamp', 'date'])}
         if kind in ('adjust',):
             q['adj'] = g.choice(['f', 'p', 'm', None])
+        if kind == 'add_ts':
+            q['n'] = g.choice([-2, -1, 0, 1, 1, 2, 3])
+            q['adj'] = g.choice(['f', 'p', 'm'])
+            q['len'] = g.choice([3, 5, 8])
         if kind in ('add', 'addinv', 'dt_bump'):
             q['n'] = nval()
             q['adj'] = g.choice([None, None, 'f', 'p', 'm'])
@@ -203,12 +207,28 @@ def generate(st):
             q['t2'] = _iso(t2)
         return q
 
+    def sibling(c):
+        # another market with the same range, weekend and NUMBER of business days: one holiday falls on another day
+        hs = [h for h in c['hol'] if c['t0'] <= h <= c['t1']]
+        c2 = dict(c, hol=list(c['hol']))
+        ref_ = Ref([_d(h) for h in c['hol']], c['weekend'], _d(c['t0']), _d(c['t1']))
+        cands = [h for h in hs if _d(h).weekday() not in c['weekend']]
+        if not cands:
+            return c2
+        h = g.choice(cands)
+        for delta in g.sample([-9, -5, -3, 3, 4, 8, 11], 7):
+            h2 = _d(h) + datetime.timedelta(days=delta)
+            if _d(c['t0']) <= h2 <= _d(c['t1']) and ref_.is_bday(h2):
+                c2['hol'] = [x for x in c['hol'] if x != h] + [_iso(h2)] * c['hol'].count(h)
+                break
+        return c2
+
     for key in keys:
-        c = _gen_config(g)
+        c = _gen_config(g) if not (current and g.random() < 0.3) else sibling(current[g.choice(sorted(current))])
         ops.append(dict(op='register', key=key, via='args', **c))
         current['key:' + key] = c
     for j in range(cfg['slots']):
-        c = _gen_config(g)
+        c = _gen_config(g) if not (current and g.random() < 0.3) else dict(sibling(current[g.choice(sorted(current))]))
         c['adj'] = g.choice(['f', 'p', 'm'])
         # an object built directly is nobody's registration, even when it carries the key of a registered calendar
         ops.append(dict(op='new_cal', slot=j, ckey=(g.choice(keys) if g.random() < 0.4 else None), **c))
@@ -541,6 +561,38 @@ def execute(trace, ctx=None):
                         raise Violation('drange', '%s..%s asked a second time (after the caller edited the first answer) = %s..(%d days), expected %d days'
                                         % (what, op['t2'], list(again)[:3], len(again), len(exp)), k)
                     res.probe('caller-edits-returned-drange')
+            elif q == 'add_ts':
+                # a timeseries is shifted by n business days; where several of its dates land on one day, the caller's own
+                # aggregate function is called back - and that function uses the same calendar (with its default convention)
+                import pandas as pd
+                n, adj = op['n'], op['adj']
+                ds = [t + j * DAY for j in range(op.get('len', 5))]
+                if not all(ref.inside(d_) and not ref.long_run(d_) for d_ in ds):
+                    continue
+                exp_idx = [ref.add(d_, n, adj) for d_ in ds]
+                if not all(ref.inside(e_) for e_ in exp_idx):
+                    continue
+                seen_cb = []
+
+                def agg(grp):
+                    d0 = ds[len(seen_cb) % len(ds)]
+                    seen_cb.append((d0, cal.adjust(d0), cal.add(d0, 1), cal.add(d0, -1)))
+                    return grp.iloc[-1]
+                got = lib(lambda: cal.add(pd.Series([float(j) for j in range(len(ds))], index=ds), n, adj, agg), what)
+                exp = {}
+                for j, e_ in enumerate(exp_idx):
+                    exp[e_] = float(j)
+                if [pd.Timestamp(x).to_pydatetime() for x in got.index] != sorted(exp) or [float(v) for v in got.values] != [exp[e_] for e_ in sorted(exp)]:
+                    raise Violation('add-single-step' if abs(n) <= 1 else 'add-table', '%s: a series over %d days shifted by %d (adj=%s) has index %s, expected %s'
+                                    % (what, len(ds), n, adj, list(got.index)[:4], sorted(exp)[:4]), k)
+                for d0, a_, p1, m1 in seen_cb:
+                    if a_ != ref.adjust(d0) or p1 != ref.add(d0, 1) or m1 != ref.add(d0, -1):
+                        raise Violation('adjust', '%s: asked from inside the aggregate callback of add(series, %d, adj=%s), the calendar says adjust(%s) = %s, add(+1) = %s, '
+                                        'add(-1) = %s; day by day (default convention %s): %s, %s, %s' % (what, n, adj, d0, a_, p1, m1, ref.adj, ref.adjust(d0), ref.add(d0, 1), ref.add(d0, -1)), k)
+                if seen_cb:
+                    res.probe('aggregate-callback-reenters-the-calendar')
+                if abs(n) > 1:
+                    warmed[target] = True
             elif q == 'clock':
                 t2 = t + 9 * DAY
                 if not ref.inside(t2):
